@@ -69,8 +69,6 @@ def build(tier, seed):
         ("c18_pool_vs_other_name_same_value", "version sets: different packages, equal symbolic values (must get different ids)", ["version set value"], ["two packages", "equal values"], 900),
         ("c18_pool_solvables_unions", "two solvables with the same symbolic record, two unions over two version sets: ids dense and unique, members in the given order", ["record"], ["2 solvables", "2 unions"], 1800),
     ]
-    if tier == "quick":
-        pool = [p for p in pool if p[0] != "c18_pool_vs_same_same"]
     for name, bounds, sym, enum, to in pool:
         hs.append(H(name, PL, bounds=bounds + "; Pool<VS(u8), N(u8)>; CHUNK_SIZE scaled to 4; hash maps replaced by the association-list shim",
                     symbolic=sym, enumerated=enum, min_covers=1, timeout=to, mem_gb=20, group="c18_pool"))
